@@ -334,6 +334,7 @@ theorem ex_intoKeys :
 #print axioms drain_leaked
 #print axioms leak_then_any_history_safe
 #print axioms leaks_then_any_history_safe
+#print axioms exWorld_shape
 #print axioms ex_extractIf
 #print axioms ex_iters
 #print axioms ex_iterMut_writes
